@@ -16,6 +16,7 @@ import (
 	"github.com/libp2p/go-libp2p/core/crypto"
 
 	"github.com/evstack/ev-node/block"
+	coreda "github.com/evstack/ev-node/core/da"
 	coresequencer "github.com/evstack/ev-node/core/sequencer"
 	"github.com/evstack/ev-node/pkg/config"
 	"github.com/evstack/ev-node/pkg/genesis"
@@ -135,6 +136,57 @@ type Node struct {
 	DataFIFO    []block.NewDataEvent
 	LoopPanics  []string
 	StartErrors []string
+	// SeqLog records what the real sequencer released and refused, across incarnations (harness side).
+	SeqLog SeqLog
+}
+
+// SeqLog is the harness-side record of the sequencing layer's answers.
+type SeqLog struct {
+	Released  [][][]byte // non-empty batches handed to the node, in release order
+	Submitted int
+	Refused   int
+}
+
+// recSeq wraps the real sequencer and records its answers; it forwards metrics recording.
+type recSeq struct {
+	inner coresequencer.Sequencer
+	log   *SeqLog
+	fence *Fence
+	epoch int
+}
+
+func (r *recSeq) SubmitBatchTxs(ctx context.Context, req coresequencer.SubmitBatchTxsRequest) (*coresequencer.SubmitBatchTxsResponse, error) {
+	res, err := r.inner.SubmitBatchTxs(ctx, req)
+	if r.fence.Alive(r.epoch) {
+		if err != nil {
+			r.log.Refused++
+		} else {
+			r.log.Submitted++
+		}
+	}
+	return res, err
+}
+
+func (r *recSeq) GetNextBatch(ctx context.Context, req coresequencer.GetNextBatchRequest) (*coresequencer.GetNextBatchResponse, error) {
+	res, err := r.inner.GetNextBatch(ctx, req)
+	if err == nil && res != nil && res.Batch != nil && len(res.Batch.Transactions) > 0 && r.fence.Alive(r.epoch) {
+		cp := make([][]byte, len(res.Batch.Transactions))
+		for i, tx := range res.Batch.Transactions {
+			cp[i] = append([]byte(nil), tx...)
+		}
+		r.log.Released = append(r.log.Released, cp)
+	}
+	return res, err
+}
+
+func (r *recSeq) VerifyBatch(ctx context.Context, req coresequencer.VerifyBatchRequest) (*coresequencer.VerifyBatchResponse, error) {
+	return r.inner.VerifyBatch(ctx, req)
+}
+
+func (r *recSeq) RecordMetrics(gasPrice float64, blobSize uint64, statusCode coreda.StatusCode, numPendingBlocks uint64, includedBlockHeight uint64) {
+	if mr, ok := r.inner.(block.MetricsRecorder); ok {
+		mr.RecordMetrics(gasPrice, blobSize, statusCode, numPendingBlocks, includedBlockHeight)
+	}
 }
 
 // AddNode creates a node (not started).
@@ -215,7 +267,7 @@ func (n *Node) StartNode() error {
 			n.StartErrors = append(n.StartErrors, err.Error())
 			return fmt.Errorf("sequencer start: %w", err)
 		}
-		n.Seq = seq
+		n.Seq = &recSeq{inner: seq, log: &n.SeqLog, fence: n.Fence, epoch: n.Fence.Epoch()}
 	}
 	n.HB = NewCapture[*types.SignedHeader](n.Fence)
 	n.DB = NewCapture[*types.Data](n.Fence)
